@@ -15,7 +15,8 @@ LITERALS = [
     "let f4 = 0.000000000000000000000000000001;", "let f5 = 0." + "0" * 320 + "1;", "let f6 = 123456789.125;", "let f7 = 9007199254740993.0;",
     "let f8 = 0.1;", "let f9 = 2.5e0;"[:0] or "let f9 = 1.5;", "let r0 = 0:10;", "let r1 = 0:2:10;", "let r2 = 10:0 - 1:0;"[:0] or "let r2 = 1:3:20;",
     'let s0 = "tab\\there";', 'let s1 = "quote \\" and \\\\ backslash";', 'let s2 = "line\\nbreak";', 'let s3 = "é ☃ 日本 😀";', 'let s4 = "";',
-    'let s5 = "a\nliteral newline";', 'let t0 = {"quoted name" = 1, plain = 2, "with-dash" = 3, "k1" = 4};', "let i0 = 9223372036854775807;",
+    'let s5 = "a\nliteral newline";', 'let s6 = "Host: x\\r\\nAccept: y\\r\\n";', 'let s7 = "cr\\ralone and \\n\\r swapped";',
+    'let s8 = "raw\r\ncrlf inside";', 'let t0 = {"quoted name" = 1, plain = 2, "with-dash" = 3, "k1" = 4};', "let i0 = 9223372036854775807;",
     'let e0 = "@ and \\@ and @{1 + 1}" % (1);', "let n0 = NULL;", "let b0 = true && false || not true;",
 ]
 
@@ -146,6 +147,7 @@ def run(tier, seed):
             skipped += 1
             continue
         tl = [(x[0], x[1]) for x in tk["ok"] if x[0] != "END"]
+        cases.append((t, [], "none", a["ok"]))          # the text as the generator wrote it (escape sequences as escapes)
         for profile in ("none", "between", "anywhere"):
             text, comments = layout(rng, tl, profile)
             if rng.random() < 0.4:
